@@ -62,6 +62,7 @@ type Closure struct {
 type Lin struct {
 	C     int64
 	Terms map[string]int64
+	B     *Bits // set when the value is tracked in the bit-provenance domain
 }
 
 func linConst(c int64) *Lin { return &Lin{C: c, Terms: map[string]int64{}} }
@@ -192,7 +193,9 @@ type State struct {
 	depth   int
 	stack   []*types.Func
 	symSet  map[int][]constant.Value
-	held    []string // rule-specific (locks)
+	ubound  map[string]uint64 // name -> known upper bound (from path conditions)
+	fieldOv map[string]Val    // stores to fields of parameter objects (key -> value)
+	held    []string          // rule-specific (locks)
 	notes   []string
 }
 
@@ -245,6 +248,18 @@ func (s *State) clone() *State {
 		n.symSet = make(map[int][]constant.Value, len(s.symSet))
 		for k, v := range s.symSet {
 			n.symSet[k] = v
+		}
+	}
+	if s.ubound != nil {
+		n.ubound = make(map[string]uint64, len(s.ubound))
+		for k, v := range s.ubound {
+			n.ubound[k] = v
+		}
+	}
+	if s.fieldOv != nil {
+		n.fieldOv = make(map[string]Val, len(s.fieldOv))
+		for k, v := range s.fieldOv {
+			n.fieldOv[k] = v
 		}
 	}
 	n.stack = append([]*types.Func(nil), s.stack...)
@@ -321,6 +336,8 @@ type Interp struct {
 	Trace       bool
 	Entry       string
 	loopForms   []*LoopForm
+	BitMode     bool           // track integers used in bit operations as provenance vectors
+	symNames    map[int]string // names of symbols (reader inputs) in bit vectors
 }
 
 // Form is a byte-size expression: constant + symbolic terms + per-iteration sums of loops.
@@ -902,6 +919,12 @@ func (in *Interp) store(lhs ast.Expr, v Val, st *State, fr *frame, next func(*St
 			}
 			if base.K == KObj {
 				st.heap[base.Obj][fv.Name()] = v
+			}
+			if base.K == KExpr && in.BitMode {
+				if st.fieldOv == nil {
+					st.fieldOv = map[string]Val{}
+				}
+				st.fieldOv[base.Key+"."+fv.Name()] = v
 			}
 			next(st)
 		})
@@ -1757,6 +1780,25 @@ func (in *Interp) compare(op token.Token, l, r Val, st *State) Tri {
 	if r.K == KConst {
 		switch l.K {
 		case KLin:
+			if l.Lin.B != nil && (op == token.EQL || op == token.NEQ) {
+				// a value with a single possibly-set bit compared with 0 / that bit
+				idx, cnt := -1, 0
+				for i, tg := range l.Lin.B.B {
+					if tg != "0" {
+						idx = i
+						cnt++
+					}
+				}
+				if cnt == 1 && l.Lin.B.B[idx] != "1" && l.Lin.B.B[idx] != "?" {
+					if u, ok := constant.Uint64Val(r.C); ok && (u == 0 || u == 1<<uint(idx)) {
+						neg := (u == 0) != (op == token.NEQ)
+						return Tri{Atom: "bitis(" + l.Lin.B.B[idx] + ")", Neg: neg}
+					}
+				}
+				if cnt == 0 {
+					return Tri{Known: true, Val: constant.Compare(constant.MakeInt64(0), op, r.C)}
+				}
+			}
 			// len(k) vs 0
 			if len(l.Lin.Terms) == 1 && l.Lin.C == 0 && isZeroConst(r) {
 				for t, co := range l.Lin.Terms {
@@ -1778,7 +1820,32 @@ func (in *Interp) compare(op token.Token, l, r Val, st *State) Tri {
 			if len(l.Lin.Terms) == 0 {
 				return Tri{Known: true, Val: constant.Compare(constant.MakeInt64(l.Lin.C), op, r.C)}
 			}
-			return Tri{Atom: fmt.Sprintf("%s %s %s", l.Lin.String(), op, r.String())}
+			name := l.Lin.String()
+			if c, ok := constant.Uint64Val(r.C); ok && (op == token.GTR || op == token.LEQ || op == token.LSS || op == token.GEQ) {
+				// remember the upper bound on the branch where it holds
+				bound := c
+				if op == token.LSS || op == token.GEQ {
+					if c == 0 {
+						bound = 0
+					} else {
+						bound = c - 1
+					}
+				}
+				set := func(s *State) {
+					if s.ubound == nil {
+						s.ubound = map[string]uint64{}
+					}
+					s.ubound[name] = bound
+				}
+				t := Tri{Atom: fmt.Sprintf("%s %s %s", name, op, r.String())}
+				if op == token.GTR || op == token.GEQ {
+					t.OnFalse = set
+				} else {
+					t.OnTrue = set
+				}
+				return t
+			}
+			return Tri{Atom: fmt.Sprintf("%s %s %s", name, op, r.String())}
 		case KExpr:
 			key := l.Key
 			if op == token.EQL || op == token.NEQ {
@@ -1919,9 +1986,53 @@ func (in *Interp) compare(op token.Token, l, r Val, st *State) Tri {
 		return Tri{Atom: fmt.Sprintf("%s %s %s", a, op, b)}
 	}
 	if l.K != KUnknown && r.K != KUnknown {
-		return Tri{Atom: fmt.Sprintf("%s %s %s", l.String(), op, r.String())}
+		t := Tri{Atom: fmt.Sprintf("%s %s %s", l.String(), op, r.String())}
+		ln, rn := boundName(l), boundName(r)
+		if ln != "" && rn != "" {
+			// a <= b (or a < b) with b bounded bounds a; propagate on the branch where it holds
+			prop := func(small, big string, strict bool) func(*State) {
+				return func(s *State) {
+					if ub, ok := s.ubound[big]; ok {
+						if strict && ub > 0 {
+							ub--
+						}
+						if s.ubound == nil {
+							s.ubound = map[string]uint64{}
+						}
+						if old, ok := s.ubound[small]; !ok || ub < old {
+							s.ubound[small] = ub
+						}
+					}
+				}
+			}
+			switch op {
+			case token.LEQ:
+				t.OnTrue, t.OnFalse = prop(ln, rn, false), prop(rn, ln, true)
+			case token.LSS:
+				t.OnTrue, t.OnFalse = prop(ln, rn, true), prop(rn, ln, false)
+			case token.GEQ:
+				t.OnTrue, t.OnFalse = prop(rn, ln, false), prop(ln, rn, true)
+			case token.GTR:
+				t.OnTrue, t.OnFalse = prop(rn, ln, true), prop(ln, rn, false)
+			}
+		}
+		return t
 	}
 	return Tri{}
+}
+
+func boundName(v Val) string {
+	switch v.K {
+	case KSym:
+		return fmt.Sprintf("s%d", v.Sym)
+	case KExpr:
+		return v.Key
+	case KLin:
+		if v.Lin.B == nil {
+			return v.Lin.String()
+		}
+	}
+	return ""
 }
 
 // ---------------------------------------------------------------------------------------
@@ -2137,6 +2248,9 @@ func (in *Interp) fieldOf(base Val, sel *types.Selection, fv *types.Var, st *Sta
 		st.heap[base.Obj][fv.Name()] = z
 		return z
 	case KExpr:
+		if v, ok := st.fieldOv[base.Key+"."+fv.Name()]; ok {
+			return v
+		}
 		return Val{K: KExpr, Key: base.Key + "." + fv.Name(), T: fv.Type()}
 	case KNil:
 		return unknown
@@ -2315,6 +2429,14 @@ func (in *Interp) binop(op token.Token, l, r Val, t types.Type, st *State) Val {
 			c = wrapInt(c, t)
 		}
 		return Val{K: KConst, C: c, T: t}
+	}
+	if in.BitMode {
+		switch op {
+		case token.AND, token.OR, token.SHL, token.SHR, token.AND_NOT:
+			if v, ok := in.bitOp(op, l, r, t, st); ok {
+				return v
+			}
+		}
 	}
 	// linear forms
 	ll, lok := asLin(l)
